@@ -1583,9 +1583,12 @@ func (inv *Invoker) Acquire() {
 
 func (inv *Invoker) acquire(usePool bool) {
 	if !inv.isCompiled {
+		// Not a compiled function, it is called directly and does not need
+		// a child VM; the VM may be nil if the caller has none.
 		inv.child = inv.vm
+		return
 	}
-	if inv.child != nil {
+	if inv.child != nil || inv.vm == nil {
 		return
 	}
 	inv.child = inv.vm.pool.acquire(
@@ -1611,10 +1614,14 @@ func (inv *Invoker) Invoke(args ...Object) (Object, error) {
 	if inv.child == nil {
 		inv.acquire(false)
 	}
-	if inv.child.Aborted() {
+	if inv.child != nil && inv.child.Aborted() {
 		return Undefined, ErrVMAborted
 	}
 	if inv.isCompiled {
+		if inv.child == nil {
+			return Undefined, ErrNotCallable.NewError(
+				"compiledFunction cannot be invoked without a VM")
+		}
 		return inv.child.Run(inv.vm.globals, args...)
 	}
 	return inv.invokeObject(inv.callee, args...)
